@@ -61,13 +61,10 @@ static long fiberPageSize = 0;
 static size_t fiber_round_to_page_size(size_t size) {
   if (!fiberPageSize) {
     fiberPageSize = sysconf(_SC_PAGESIZE);
-    fiberPageSize -= 50;  // account for overhead for page info strucures (i
-                          // don't know the actual size, this is a guess)
   }
-  // minimum of 2 pages, we'll use one as a sentinel
-  const size_t numPages = size / fiberPageSize + 1;
-  const size_t numPagesAfterMin = numPages >= 2 ? numPages : 2;
-  return fiberPageSize * numPagesAfterMin;
+  // whole pages covering 'size', plus one page used as the PROT_NONE sentinel
+  const size_t numPages = (size + fiberPageSize - 1) / fiberPageSize + 1;
+  return fiberPageSize * numPages;
 }
 #endif
 
